@@ -58,3 +58,26 @@ Proof.
       inversion H; subst. split; [lia|]. split; [exact Hc|].
       exists []. rewrite app_nil_r. split; [reflexivity|constructor].
 Qed.
+
+(* the size cap is an invariant of every step and therefore of every run, on every schedule *)
+Lemma next_cap_inv lim c r c' : lim <= USIZE_MAX_R -> ck_total c <= lim ->
+  chunked_next (Some lim) c = (r, c') -> ck_total c' <= lim.
+Proof.
+  intros Hu Hl. unfold chunked_next.
+  destruct (read_first _ _) as [[b| |k] s1]; try (intros H; inversion H; subst; cbn; lia).
+  destruct (lead_len b) as [needed|]; [|intros H; inversion H; subst; cbn; lia].
+  destruct (read_rest _ _ _ _) as [[bytes|k] s2]; [|intros H; inversion H; subst; cbn; lia].
+  destruct (lim <? sat_add_r (ck_total c) (N.of_nat needed)) eqn:E.
+  { intros H; inversion H; subst; cbn; lia. }
+  destruct (utf8_dec bytes) as [[|ch [|x xs]]|]; intros H; inversion H; subst; cbn; lia.
+Qed.
+
+Theorem run_cap_inv : forall fuel lim c acc out c', lim <= USIZE_MAX_R -> ck_total c <= lim ->
+  chunked_all fuel (Some lim) c acc = (out, c') -> ck_total c' <= lim.
+Proof.
+  induction fuel as [|f IH]; intros lim c acc out c' Hu Hl H.
+  - cbn in H. inversion H; subst. exact Hl.
+  - cbn [chunked_all] in H. destruct (chunked_next (Some lim) c) as [[ch|] c1] eqn:Hn.
+    + eapply IH; [exact Hu| |exact H]. eapply next_cap_inv; eauto.
+    + inversion H; subst. eapply next_cap_inv; eauto.
+Qed.
